@@ -79,6 +79,12 @@ func coqList(xs []string) string { return "[" + strings.Join(xs, "; ") + "]" }
 
 func CoqLeaf(l Leaf) string {
 	switch l.Kind {
+	case KSlice:
+		var xs []string
+		for _, x := range l.L {
+			xs = append(xs, CoqLeaf(x))
+		}
+		return "(DSlice " + coqList(xs) + ")"
 	case KString:
 		return "(DStr " + CoqStr(l.S) + ")"
 	case KBool:
@@ -550,6 +556,11 @@ func schemaStrings(n *Node, out map[string]bool, layoutsOut map[string]bool) {
 	for _, l := range n.DefSlice {
 		if l.Kind == KString {
 			out[l.S] = true
+		}
+		for _, x := range l.L {
+			if x.Kind == KString {
+				out[x.S] = true
+			}
 		}
 	}
 	for _, l := range n.CoList {
